@@ -209,8 +209,23 @@ def run_property(prop, tier="quick", seed=0, repo_root=None, only=None):
                             property=prop, source="bounded stand-in", what=what, case=v.get("case"),
                             expected=v.get("expected"), observed=v.get("observed"), replay=v.get("replay")))
                         status["violations"].append((what, path, True))
-            except Exception:
-                status["errors"].append("bounded stand-in crashed: " + traceback.format_exc(limit=6))
+            except Exception as e_b:
+                # where was the exception raised?  Inside the library under test (a call of the scenario failed where the
+                # unchanged tree does not fail: a finding, with the traceback as the replay) or in the stand-in itself
+                # (it reaches into something a refactoring renamed: it cannot run on this tree -> undecided, exit 2)
+                tb = traceback.extract_tb(e_b.__traceback__)
+                inner = tb[-1].filename if tb else ""
+                root = os.path.realpath(ctx.repo_root)
+                if os.path.realpath(inner).startswith(root + os.sep):
+                    what = "the bounded stand-in's scenario made the library raise %r at %s:%d (%s)" % (
+                        e_b, os.path.relpath(inner, root), tb[-1].lineno, tb[-1].name)
+                    path = write_replay(ctx, "bounded_library_raised", dict(property=prop, source="bounded stand-in", what=what,
+                                                                            traceback=traceback.format_exc(limit=-8)))
+                    status["violations"].append((what, path, True))
+                    bounded = dict(evaluations=1, distinct_nontrivial=0, rule="aborted by an exception of the library", violations=[])
+                else:
+                    status["degraded"].append("bounded stand-in could not run on this tree: " + traceback.format_exc(limit=-4).replace("\n", " | "))
+                    bounded = None
         # CPython cross-check of the executor's encoding (soundness guard of the generator itself)
         cross = None
         if getattr(pm, "CROSSCHECK", False) and not only:
